@@ -891,7 +891,11 @@ class Expander:
                 self.out.segs[si:si + 1] = [x for x in newsegs if x.text]
                 # the lifted fn goes after the outer fn
                 self._pending_lifts = getattr(self, "_pending_lifts", [])
-                self._pending_lifts.append((lc, lifted_id, rel, t[b0:b1], base + b0, src.count("\n", 0, base + a0) + 1))
+                lifted_body = t[b0:b1]
+                # site rewrites of the enclosing fn also apply inside the lifted body
+                for a_, b_, _opt in spec["bodysubs"]:
+                    lifted_body = re.sub(a_, b_, lifted_body)
+                self._pending_lifts.append((lc, lifted_id, rel, lifted_body, base + b0, src.count("\n", 0, base + a0) + 1))
                 self.rewrites.append("%s: closure `%s` in %s lifted (body verbatim) to fn %s so that it can carry a contract" % (rel, t[a0:p1 + 1], fnid, lc["name"]))
                 done = True
                 break
